@@ -48,7 +48,10 @@ var cfg = sess.Config{MaxDepth: 120}
 
 const okDeadline = 20 * time.Second
 
+var leftovers []string
+
 func run(steps []Step, withFailures bool) (results []sess.Res, globals string, failuresOK bool) {
+	leftovers = nil
 	s := sess.New(cfg)
 	s.Run(gen.TypedPrelude)
 	failuresOK = true
@@ -65,6 +68,10 @@ func run(steps []Step, withFailures bool) (results []sess.Res, globals string, f
 			if !r.Failed() && !r.Cont {
 				failuresOK = false
 			}
+			if s.St.GetPipeValue() != nil {
+				// interpreter state that only exec()/run() (not available here) would show: read directly
+				leftovers = append(leftovers, fmt.Sprintf("after the failed input %q the piped value %q is still in the state", st.Src, s.St.GetPipeValue()))
+			}
 			if r.Out != "" {
 				failuresOK = false
 			}
@@ -79,6 +86,9 @@ func check(c Case) (inconclusive bool, err error) {
 	pbt.InFlight("inflight", c)
 	a, ga, _ := run(c.Steps, false)
 	b, gb, ok := run(c.Steps, true)
+	if len(leftovers) > 0 {
+		return false, fmt.Errorf("%s", strings.Join(leftovers, "\n"))
+	}
 	if !ok {
 		return true, nil
 	}
@@ -125,6 +135,8 @@ var failPool = []failing{
 	{"error-deep-in-recursion", `func zfdeep(n) { if n == 0 { error("zf bottom") }; 1 + zfdeep(n - 1) }; zfdeep(25)`, false, false},
 	{"type-error-deep-in-recursion", `zfd2 = n => { if n == 0 { return 1 + "zf" }; [zfd2(n - 1)] }; zfd2(20)`, false, false},
 	{"depth-overflow", `func(){ zfr = n => zfr(n + 1); zfr(0) }()`, false, true},
+	{"depth-overflow-right-of-pipe", `"zf piped text" | (func(){ self() })()`, false, true},
+	{"error-right-of-pipe", `"zf piped text" | (x => error("zf pipe", x))(1)`, false, false},
 	{"depth-overflow-named", `func zfrec(n) { 1 + zfrec(n + 1) }; zfrec(0)`, false, true},
 	{"depth-overflow-in-loop", `for zfi = 2 { (func(){ self() })() }`, false, true},
 	{"memory-guard", `func(){ [1, 2, 3] * 1000000000 }()`, false, true},
